@@ -1,7 +1,7 @@
 (* ===== C04 : a model spec replays the recorded encoding on any data ===== *)
 From Coq Require Import List NArith ZArith QArith Qcanon Bool Arith.
 Import ListNotations.
-Require Import Mat Mat2 SpecRec ReplayLaws MatLaws MatSep ReplaySelf.
+Require Import Mat Mat2 SpecRec ReplayLaws MatLaws MatSep ReplaySelf ReplayRows.
 Open Scope nat_scope.
 
 (* On ANY data on which reuse succeeds the column names are the names recorded in the spec, in the recorded order
@@ -54,6 +54,32 @@ Proof. exact encode_with_recorded. Qed.
 Theorem C04_enforce_is_identity_on_recorded_names : forall gen n, NoDup (map fst gen) -> enforce gen (map fst gen) n = inl gen.
 Proof. exact enforce_self. Qed.
 
+(* THE row-wise statement: with every categorical factor's level list fixed by the spec (as in every recorded spec) or by the column's
+   dtype, and no nulls, replaying on ANY selection ix of the rows -- a subset, duplicated rows, another order, levels becoming absent --
+   gives under the same names exactly the selected rows of every column of the replay on the whole data *)
+Theorem C04_replay_is_rowwise : forall sp d n ix evs names cols,
+  eval_pool d (pool_of (sp_terms sp)) [] = inl evs -> frame_ready sp evs n -> all_nulls evs = [] -> Forall (fun i => i < n)%nat ix ->
+  replay sp d n [] = inl (names, cols, []) ->
+  replay sp (sel_frame ix d) (length ix) [] = inl (names, map (sel ix) cols, []).
+Proof. exact replay_rowwise. Qed.
+Theorem C04_recorded_specs_pin_levels : forall c terms evs n e v, lookup_ev evs e = Some v -> pinned (sp_enc (spec_of c terms evs n)) e v.
+Proof. exact recorded_spec_pins. Qed.
+(* rows 1,1,0 of a frame in which level y then no longer occurs: its column stays, all zero *)
+Example C04_rowwise_example :
+  let sp := {| sp_terms := [[{| fx := [65]%N; fk := FLookup |}]; [{| fx := [97]%N; fk := FLookup |}]];
+               sp_struct := [([{| st_f := [([65]%N, false)]; st_scale := Q2Qc 1 |}], [[65;91;120;93]%N; [65;91;121;93]%N]);
+                             ([{| st_f := [([97]%N, false)]; st_scale := Q2Qc 2 |}], [[97]%N])];
+               sp_enc := [([65]%N, KCat [[120]%N; [121]%N]); ([97]%N, KNum)];
+               sp_cfg := {| full_rank := false; na_action := NaDrop; caller_drop := [] |} |} in
+  let d := [([65]%N, CCat [Some [121]%N; Some [120]%N; Some [121]%N] None); ([97]%N, CNum [Some (Q2Qc 1); Some (Q2Qc 2); Some (Q2Qc 3)])] in
+  replay sp (sel_frame [1; 1; 0]%nat d) 3 [] =
+  inl ([[65;91;120;93]%N; [65;91;121;93]%N; [97]%N],
+       map (sel [1; 1; 0]%nat) [[Some (Q2Qc 0); Some (Q2Qc 1); Some (Q2Qc 0)]; [Some (Q2Qc 1); Some (Q2Qc 0); Some (Q2Qc 1)]; [Some (Q2Qc 2); Some (Q2Qc 4); Some (Q2Qc 6)]], []).
+Proof. vm_compute. reflexivity. Qed.
+
+Print Assumptions C04_replay_is_rowwise.
+Print Assumptions C04_recorded_specs_pin_levels.
+Print Assumptions C04_rowwise_example.
 Print Assumptions C04_replay_names_fixed.
 Print Assumptions C04_replay_reproduces.
 Print Assumptions C04_recorded_levels_reproduce_encoding.
